@@ -245,8 +245,8 @@ def check_print(case, R: engine.Acc):
         if defined:
             verify_defined(defined)
         for t, r in undefined:
-            if case.get("tier") == "quick" and style != "min" and "styles" not in case and not case.get("allstyles"):
-                continue  # quick tier: rejected depth-2 trees are exercised in the minimal rendering only (depth 1: all four)
+            if "styles" not in case and not case.get("allstyles") and style not in (("min",) if case.get("tier") == "quick" else ("min", "tight")):
+                continue  # rejected depth-2 trees: minimal rendering only (quick) / minimal and blank-free (thorough); depth 1: all four
             R.case([t, style], nontrivial=has_op(t), sample=False)
             text = "@print %s\n@sealed\n" % X.render(t, style)
             prints, err, _res = read_text(text)
